@@ -103,7 +103,7 @@ class XferWorld:
         if text is not None:
             argv += ["--text", text]
         else:
-            argv += [what]
+            argv += ["--", what]        # a file may be called "-dash"
         cfg = config(*argv)
         cfg.cwd = cwd
         cfg.stdout, cfg.stderr = io.StringIO(), io.StringIO()
